@@ -493,12 +493,12 @@ def _edge_only(body, d, b):
     return True
 
 
-def _blocks_between(body, a, b):
+def _blocks_between(body, a, b, avoid=()):
     fw = set()
     st = [a]
     while st:
         x = st.pop()
-        if x in fw:
+        if x in fw or x in avoid:
             continue
         fw.add(x)
         if x == b:
